@@ -440,8 +440,22 @@ func (g *G) Inbound(label string, o InboundOpts) Inbound {
 	// caller
 	switch k := g.Int(label+"/caller", 0, 9); {
 	case has(o.Break, "P7"):
-		other := (AcctOfBytes(fromBytes(o.Submitter)) + 1 + g.Int(label+"/co", 0, NAccts-2)) % NAccts
-		msg.Caller = Pad32(AcctBytes(other))
+		switch g.Int(label+"/ck", 0, 3) {
+		case 0:
+			// non-zero only in the 12 high bytes: names the account with 20 zero bytes, not the submitter
+			msg.Caller = make([]byte, 32)
+			msg.Caller[g.Int(label+"/hb", 0, 11)] = byte(g.Int(label+"/hv", 1, 255))
+		case 1:
+			for {
+				msg.Caller = g.NonZero32(label+"/crnd", "")
+				if !bytes.Equal(msg.Caller[12:], fromBytes(o.Submitter)) {
+					break
+				}
+			}
+		default:
+			other := (AcctOfBytes(fromBytes(o.Submitter)) + 1 + g.Int(label+"/co", 0, NAccts-2)) % NAccts
+			msg.Caller = Pad32(AcctBytes(other))
+		}
 	case k <= 5:
 		msg.Caller = make([]byte, 32)
 	default:
